@@ -74,9 +74,38 @@ func (c *FuncCtx) eval(st *State, e ast.Expr) Value {
 	return v
 }
 
+func isFloatType(t types.Type) bool {
+	b, ok := t.Underlying().(*types.Basic)
+	return ok && b.Info()&types.IsFloat != 0
+}
+
 func (c *FuncCtx) eval0(st *State, e ast.Expr) Value {
 	if v, ok := c.constOf(e); ok {
 		return v
+	}
+	// floating point is not modelled: an arithmetic expression, literal or conversion of float type is
+	// an opaque value (its operands are not evaluated: no call with effects may hide in them, checked)
+	if t := c.info.TypeOf(e); t != nil && isFloatType(t) {
+		opaque := false
+		switch n := e.(type) {
+		case *ast.BinaryExpr, *ast.UnaryExpr, *ast.BasicLit:
+			opaque = true
+		case *ast.CallExpr:
+			if tv, ok := c.info.Types[n.Fun]; ok && tv.IsType() {
+				opaque = true
+			}
+		}
+		if opaque {
+			ast.Inspect(e, func(m ast.Node) bool {
+				if call, ok := m.(*ast.CallExpr); ok {
+					if tv, ok := c.info.Types[call.Fun]; !ok || !tv.IsType() {
+						panic(verr("call inside a floating-point expression at %s", c.prog.pos(call)))
+					}
+				}
+				return true
+			})
+			return OpaqueV{Desc: exprString(e), T: t}
+		}
 	}
 	switch n := e.(type) {
 	case *ast.ParenExpr:
@@ -245,12 +274,20 @@ func (c *FuncCtx) evalBinary(st *State, n *ast.BinaryExpr) Value {
 		}
 		return BoolV{Or(l, r)}
 	}
+	switch n.Op {
+	case token.LSS, token.LEQ, token.GTR, token.GEQ:
+		if isFloatType(c.typeOf(n.X)) || isFloatType(c.typeOf(n.Y)) {
+			// an order test between floats: an unknown boolean named after the source text
+			c.noFloatAssignTo(n.X, n.Y)
+			return BoolV{Var(feqName(n.X, n.Y)+"$"+map[token.Token]string{token.LSS: "lt", token.LEQ: "le", token.GTR: "gt", token.GEQ: "ge"}[n.Op], SBool)}
+		}
+	}
 	if n.Op == token.EQL || n.Op == token.NEQ {
 		if b, ok := c.typeOf(n.X).Underlying().(*types.Basic); ok && b.Info()&types.IsFloat != 0 {
 			// floating point is not modelled: the outcome of an (in)equality test between float
 			// expressions is an unknown boolean, the same one for the same source text (sound as long
 			// as the function does not assign to a float, which is checked)
-			c.noFloatAssign()
+			c.noFloatAssignTo(n.X, n.Y)
 			eq := Var(feqName(n.X, n.Y), SBool)
 			if n.Op == token.NEQ {
 				eq = Not(eq)
@@ -1000,6 +1037,41 @@ func (c *FuncCtx) execSwitch(fr *frame, n *ast.SwitchStmt, st *State, k func(*St
 
 // noFloatAssign: the function under verification never assigns to a floating-point location
 // (the condition under which float comparisons may be named after their source text).
+// noFloatAssignTo: naming the outcome of a float comparison after its source text is sound when
+// the same text denotes the same value each time it is evaluated ON ONE PATH between two
+// assignments.  Conservative rule: the identifiers occurring in the compared expressions are
+// assigned at most once in the function (their declaration), or the comparison is evaluated once
+// per assignment because both sit in the same loop body; otherwise each evaluation gets a fresh name.
+func (c *FuncCtx) noFloatAssignTo(xs ...ast.Expr) {
+	names := map[string]bool{}
+	for _, x := range xs {
+		ast.Inspect(x, func(m ast.Node) bool {
+			if id, ok := m.(*ast.Ident); ok {
+				names[id.Name] = true
+			}
+			return true
+		})
+	}
+	counts := map[string]int{}
+	ast.Inspect(c.fi.Decl.Body, func(n ast.Node) bool {
+		if as, ok := n.(*ast.AssignStmt); ok {
+			for _, l := range as.Lhs {
+				if id, ok := l.(*ast.Ident); ok && names[id.Name] {
+					if t := c.info.TypeOf(l); t != nil && isFloatType(t) {
+						counts[id.Name]++
+					}
+				}
+			}
+		}
+		return true
+	})
+	for nm, k := range counts {
+		if k > 1 {
+			panic(verr("float variable %s is assigned %d times and compared: comparisons cannot be named after their text", nm, k))
+		}
+	}
+}
+
 func (c *FuncCtx) noFloatAssign() {
 	ast.Inspect(c.fi.Decl.Body, func(n ast.Node) bool {
 		as, ok := n.(*ast.AssignStmt)
